@@ -51,6 +51,12 @@ def contracts():
              "DIR": "spec.arg_raw(args, 3, '')",
              "CNT": "spec.to_int(spec.arg(args, 1, ''), 0) if spec.arg(args, 1, '').isdecimal() else 0"},
        int_limit=True)
+    # #tag without attributes: an allowed tag wraps the expanded content, or is self-closing when that is empty
+    pf("tag_fn", ["implies(len(args) <= 2 and TAG != 'nowiki' and TAG in ctx.allowed_html_tags and C == '', "
+                  "result == '<' + TAG + ' />')",
+                  "implies(len(args) <= 2 and TAG != 'nowiki' and TAG in ctx.allowed_html_tags and C != '', "
+                  "result == '<' + TAG + '>' + C + '</' + TAG + '>')"],
+       lets={"TAG": "spec.arg_raw(args, 0, '').lower()", "C": "spec.arg_raw(args, 1, '')"})
     # plural selects the singular form iff the number evaluates to 1 (expr_fn by its callee contract:
     # result == expr_value(expanded first argument))
     pf("plural_fn", ["result == (spec.arg(args, 1, '') if expr_value(spec.arg(args, 0, '0').strip().lower()) == '1' "
@@ -65,6 +71,8 @@ def contracts():
 
 
 def setup_registry(reg):
+    reg.add(Contract(target="common:nowiki_quote", prop="C18", mode="value", result="str", raises=[],
+                     assumed=["callee contract of common:nowiki_quote (total, returns str) -- owner: C15"]))
     reg.add(Contract(target="parserfns:expr_fn", prop="C18", mode="value", result="str", raises=[],
                      callee_ensures=["result == expr_value(expander(args[0]).strip().lower())"],
                      assumed=["callee contract of expr_fn: a total function of its expanded, trimmed, lower-cased "
